@@ -20,7 +20,8 @@ class C02(Property):
                          "metadata_block_roundtrip", "colours_block_roundtrip", "colours_block_roundtrip_decoded",
                          "editor_block_roundtrip", "difficulty_block_roundtrip", "general_block_roundtrip", "events_block_roundtrip",
                          "laws_satisfiable", "records_roundtrip", "circle_rt", "spinner_rt", "hold_rt", "samples_bank_info_rt", "samples_rt",
-                         "timing_line_rt", "inherited_line_rt", "redundant_group_no_effect", "timing_laws_satisfiable", "timing_block_redecoded"]
+                         "timing_line_rt", "inherited_line_rt", "redundant_group_no_effect", "timing_laws_satisfiable", "timing_block_redecoded",
+                         "timing_rt", "timing_rt_laws_satisfiable", "timing_roundtrip_file", "sample_timeline_hyps"]
     partial_theorems = {
         "editor_block_roundtrip / difficulty_block_roundtrip / general_block_roundtrip / events_block_roundtrip / records_roundtrip":
             "law-dependent: proved for every number codec satisfying CodecLaws (parse(print x) = x on the representable values; printed numbers are non-empty and made of "
@@ -47,9 +48,16 @@ class C02(Property):
             "exact arithmetic only (RtTiming.EpsLaws: |a−b| < EPSILON iff a = b; instance: the integer toy scalar ZC with eps = 1): from a group's time up to the next control point the true "
             "properties equal last_props after that group's iteration, whether its inherited line was written or suppressed. For IEEE doubles the law fails for non-finite values and for "
             "distinct values closer than 2.2e-16 (possible below 2.0): there a suppressed line can change the effective velocity by less than EPSILON — not modelled",
-        "roundtrip": "NOT yet theorems (only `def roundtrip_statement : Prop`, `def timing_rt_statement : Prop`): slider lines (path strings, node samples); for timing points the last step — "
-            "that the decoder's pending-group / redundancy logic, run over the values written (timing_block_redecoded), rebuilds the same timing points and the same effective SV / kiai / "
-            "scroll-speed timelines (layer 5 of DESIGN 5.2); the assembly over all objects of a map, and therefore the property as a whole. These are evaluated on the implementation by the `rt` oracle "
+        "timing_rt / timing_roundtrip_file":
+            "layer 5 of DESIGN 5.2, proved in EXACT ARITHMETIC only: under RtTiming.EpsLaws (|a−b| < EPSILON iff a = b), GroupLaws (the decoder's grouping test |t−u| >= EPSILON likewise) and "
+            "TimelineHyps (sorted collection; numerators >= 1; timing points with non-negative beat length inside [6, 60000]; every slider velocity — scroll speed in taiko/mania — and the "
+            "default 1 with −100/v < 0, 100/−(−100/v) = v and inside its clamp) — all satisfiable on the integer toy scalar ZC (timing_rt_laws_satisfiable, sample_timeline_hyps on "
+            "C04.sampleMap) — the re-decoded map has the same timing points (time, beat length, signature, omit-first-bar-line, in order) and at every time the same effective slider "
+            "velocity (difficulty_point_at; in taiko/mania the scroll speed of effect_point_at) and kiai flag. timing_roundtrip_file adds the codec laws and RepRecords / RepTimingMap and goes "
+            "through encode, UTF-8 bytes, reader, framing, Beatmap decoder and finalisation. NOT covered: IEEE doubles (the laws fail: 100/(100/v) may be off by an ulp, values closer than "
+            "2.2e-16 exist below 2.0, inf−inf is NaN) — that is the ≤4 ulp slider-velocity drift the `rt` oracle measures; sample points (not part of the preserved view); the difficulty-"
+            "point velocity in taiko/mania and the scroll speed elsewhere (the format carries one of the two)",
+        "roundtrip": "NOT yet theorems (only `def roundtrip_statement : Prop`): slider lines (path strings, node samples); the assembly over all objects of a map, and therefore the property as a whole. These are evaluated on the implementation by the `rt` oracle "
             "(preserved view compared field by field, floats by bits, curves included, ≤4 ulp only for slider velocity) and on the model by the three-way `rt` correspondence "
             "(M1, text, M2 all identical between model and code)",
     }
@@ -60,8 +68,10 @@ class C02(Property):
                   "(records_roundtrip: encode, UTF-8 bytes, reader, framing, Beatmap decoder, finalisation), and line level for circles, spinners and hold notes (circle_rt, spinner_rt, "
                   "hold_rt, samples_bank_info_rt, samples_rt), and for timing points: line level (timing_line_rt: a timing point's line comes back as that point; inherited_line_rt: an inherited line "
                   "comes back as the velocity / kiai / sample fields in effect), the encoder's redundancy suppression loses nothing under exact arithmetic (redundant_group_no_effect), and file level "
-                  "timing_block_redecoded (the re-decoded control points are the decoder's state machine run over exactly the values written). Everything that prints floats is proved for every "
-                  "lawful number codec. Sliders, and the final step of the timing-point round trip (timing_rt_statement), are not yet theorems. Model of decoder and encoder compared three ways on every case (decoded map, encoded text character for character, re-decoded map); "
+                  "timing_block_redecoded (the re-decoded control points are the decoder's state machine run over exactly the values written), and the timing-point round trip itself in exact "
+                  "arithmetic (timing_rt, timing_roundtrip_file: same timing points, same effective slider velocity / scroll speed and kiai at every time — encoder group loop and redundancy "
+                  "suppression against the decoder's pending groups, precedence and redundancy checks). Everything that prints floats is proved for every "
+                  "lawful number codec. Sliders are not yet theorems. Model of decoder and encoder compared three ways on every case (decoded map, encoded text character for character, re-decoded map); "
                   "the property itself — preserved(decode(encode(decode x))) = preserved(decode x) for chronological inputs — is evaluated on the real code over the structured generator "
                   "(all sections, four modes, versions 3..128, all object kinds, multi-segment paths, same-time timing groups, hostile-but-accepted numerics), field-level mutations of the "
                   "bundled maps and the bundled maps themselves.")
